@@ -300,13 +300,30 @@ def fix_unconventional_class_definitions(source: str) -> str:
     for (classdef, *_), *assign_matches in core.walk_sequence(root, *template, expand_last=True):
         transaction += 1
         new_assigns = []
+        # In the class body, the class does not exist yet, and names bound there hide the globals.
+        class_body_names = {classdef.name}
+        class_body_names.update(name.id for name in core.walk(classdef, ast.Name(ctx=ast.Store)))
+        class_body_names.update(
+            node.name
+            for node in core.filter_nodes(
+                classdef.body, (ast.FunctionDef, ast.AsyncFunctionDef, ast.ClassDef)
+        ))
         for assign, *_ in assign_matches:
+            attr = assign.targets[0].attr
+            if attr.startswith("__") and not attr.endswith("__"):
+                break  # would be mangled in the class body
+            if any(name.id in class_body_names for name in core.walk(assign.value, ast.Name)):
+                break
+            class_body_names.add(attr)
             new_assign = ast.Assign(targets=[ast.Name(id=assign.targets[0].attr)], value=assign.value)
             new_assign = ast.copy_location(new_assign, assign)
             new_assign.col_offset = classdef.body[0].col_offset
             new_assigns.append(new_assign)
 
             yield assign, None, transaction
+
+        if not new_assigns:
+            continue
 
         new_classdef = ast.ClassDef(
             name=classdef.name,
